@@ -473,3 +473,126 @@ for _t in ('subclass-before-base', 'local-to-module', 'xor-of-list'):
               "function-local class naming a module-level class defined later (Optional / Union); a forward reference nested in "
               "PositiveInt ^ List['Late'] -- target %s; inputs solver ints in -3..3 / \"3\" / \"x\"; same outcome as the direct "
               'declarations' % _t)((lambda t: lambda V: _more(V, t))(_t))
+
+
+# ------------------------------------------------------------------ system: premature first call, class factory called twice
+PREMATURE = HEAD + '''
+class Order@@(Schema):
+    lines: List['Line@@'] = Field(default_factory=list)
+    note: 'Note@@' = Field(max_length=3, default='')
+    n: int = 0
+'''
+PREMATURE_REST = '''
+class Line@@(Schema):
+    qty: int = Field(ge=1)
+
+
+class Note@@(str, utype.Rule):
+    min_length = 0
+'''
+FACTORY = HEAD + '''
+def tree_of@@(t):
+    class Tree(Schema):
+        v: t
+        kids: List['Tree'] = Field(default_factory=list)
+        up: Optional['Tree'] = None
+    return Tree
+
+
+Tree = tree_of@@(int)
+StrTree@@ = tree_of@@(str)
+IntTree@@ = Tree
+'''
+FACTORY_DIRECT = HEAD + '''
+class S3_@@(Schema):
+    v: str
+
+
+class S2_@@(Schema):
+    v: str
+    kids: List[S3_@@] = Field(default_factory=list)
+    up: Optional[S3_@@] = None
+
+
+class StrTree@@(Schema):
+    v: str
+    kids: List[S2_@@] = Field(default_factory=list)
+    up: Optional[S2_@@] = None
+
+
+class I3_@@(Schema):
+    v: int
+
+
+class I2_@@(Schema):
+    v: int
+    kids: List[I3_@@] = Field(default_factory=list)
+    up: Optional[I3_@@] = None
+
+
+class IntTree@@(Schema):
+    v: int
+    kids: List[I2_@@] = Field(default_factory=list)
+    up: Optional[I2_@@] = None
+'''
+
+
+@ob('premature-first-call', marks=['accept', 'reject'], budget=(100, 400),
+    bounds="a class is (optionally, solver bool) called before the classes its string annotations name exist -- the call fails -- then "
+           'those classes are defined and the class is parsed on a solver-chosen input: the outcome equals that of the same system '
+           'without the premature call and with direct references')
+def premature(V):
+    with V.notrace():
+        fwd, n1 = load(PREMATURE, 'pf')
+        direct, n2 = load((HEAD + PREMATURE_REST + PREMATURE[len(HEAD):]).replace("'Line@@'", 'Line@@').replace("'Note@@'", 'Note@@'), 'pd')
+    try:
+        O1, O2 = getattr(fwd, 'Order%d' % n1), getattr(direct, 'Order%d' % n2)
+        if V.bool('premature_call'):
+            early = V.pick('early_input', [{'n': 1}, {'lines': [{'qty': 1}]}, {'note': 'ab'}])
+            r = outcome(O1, **early)
+            V.check(r[0] != 'ok' or True, 'forward:premature', lambda: repr(r))
+        with V.notrace():
+            exec(compile(PREMATURE_REST.replace('@@', str(n1)), fwd.__name__ + '_rest.py', 'exec'), fwd.__dict__)
+        d = {}
+        which = V.pick('field', ['lines', 'note', 'both', 'n'])
+        if which in ('lines', 'both'):
+            d['lines'] = [{'qty': num(V, 'q%d' % i, -2, 3)} for i in range(V.pick('n_lines', [1, 2]))]
+        if which in ('note', 'both'):
+            d['note'] = V.pick('note', ['', 'ab', 'abcd', 5])
+        if which == 'n':
+            d['n'] = num(V, 'n', -3, 3)
+        r1, r2 = outcome(O1, **d), outcome(O2, **d)
+        V.check(r1 == r2, 'forward:differs:after-premature-call', lambda: 'Order(**%r): forward %r ; direct %r' % (d, r1, r2))
+        V.cover('accept' if r1[0] == 'ok' else 'reject')
+    finally:
+        unload(fwd, direct)
+
+
+@ob('class-factory', marks=['str', 'int'], budget=(100, 400),
+    bounds="a class factory defining a self-referencing class (List['Tree'], Optional['Tree']) is called twice (int and str "
+           'payload), the first product is bound at module level under the class\'s own name; the second product must parse '
+           'nested values with ITS payload type; inputs of depth <= 3 with solver ints -3..3 / "3" / "x"; same outcome as explicit '
+           'classes with direct references')
+def class_factory(V):
+    with V.notrace():
+        fwd, n1 = load(FACTORY, 'ff')
+        direct, n2 = load(FACTORY_DIRECT, 'fd')
+    try:
+        which = V.pick('which', ['str', 'int'])
+        name = 'StrTree' if which == 'str' else 'IntTree'
+        if V.bool('other_first'):
+            other = 'IntTree' if which == 'str' else 'StrTree'
+            outcome(getattr(fwd, other + str(n1)), v=1, kids=[{'v': 2}])
+        d = {'v': num(V, 'v', -3, 3)}
+        shape = V.pick('shape', ['flat', 'kids', 'up', 'kids.kids'])
+        if shape == 'kids':
+            d['kids'] = [{'v': num(V, 'k', -3, 3)}]
+        elif shape == 'up':
+            d['up'] = {'v': num(V, 'u', -3, 3)}
+        elif shape == 'kids.kids':
+            d['kids'] = [{'v': 1, 'kids': [{'v': num(V, 'kk', -3, 3)}]}]
+        r1, r2 = strip(outcome(getattr(fwd, name + str(n1)), **d)), strip(outcome(getattr(direct, name + str(n2)), **d))
+        V.check(r1 == r2, 'forward:differs:class-factory', lambda: '%s(**%r): factory product %r ; explicit classes %r' % (name, d, r1, r2))
+        V.cover(which)
+    finally:
+        unload(fwd, direct)
